@@ -34,6 +34,8 @@ ENGINES = [
      'kind_free_text': 'StaticSmtpRelay -> SmtpEdge.handle over gevent socketpairs (Server subclass with generated extension set), HttpRelay -> WsgiEdge under gevent WSGIServer on loopback'},
     {'name': 'stalling-peers', 'path': 'vf/props/c14.py', 'serves_properties': ['C14'],
      'kind_free_text': 'greenlet-driven peers on real socketpairs / loopback that stall or trickle at a chosen protocol stage; all cases of a shard run concurrently'},
+    {'name': 'gated-pool', 'path': 'vf/props/c19.py', 'serves_properties': ['C19'],
+     'kind_free_text': 'RelayPool with harness-gated clients; slimta.relay.pool.Timeout substituted by a virtual-clock Timeout; DelayPeer greenlets for the real tier'},
     {'name': 'reactive-peer', 'path': 'vf/props/c10.py', 'serves_properties': ['C10'],
      'kind_free_text': 'in-memory downstream that parses what the client sends and only then makes the scripted replies readable; a read when nothing is owed raises'},
     {'name': 'scripted-socket', 'path': 'vf/transport.py', 'serves_properties': ['C05', 'C17'],
@@ -228,6 +230,17 @@ CHECKS['C14'] = {
             'and the connection must be released, before a watchdog of max(2 s, 20 x timeout) (re-checked alone with 5 s)',
     'design_ref': 'DESIGN.md section 2 C14',
     'note': 'wall clock; safety-only oracle (a delay shorter than the watchdog is invisible); timeouts 0.05-0.4 s',
+}
+CHECKS['C19'] = {
+    'engine': 'gated-pool',
+    'level': 'exploration',
+    'technique': 'stateful property-based testing: real RelayPool/RelayPoolClient/BlockingDeque with gated client loops on a virtual clock (tier A) and real StaticSmtpRelay against delaying peers (tier B); invariants at quiescence + fair drain',
+    'text': 'tier A: generated interleavings of attempt() calls, client gate releases (deliver / fail / fail-and-exit / requeue-and-exit) and idle expiry for pool '
+            'sizes 1..3 and unbounded: live clients never exceed the size, every attempt gets the result of its own envelope, len(queue) equals the semaphore counter, '
+            'no request waits while no client exists, after a fair drain every attempt has returned. tier B: up to 8 concurrent real deliveries with delays, refused '
+            'connections, 421 while idle, mid-transaction 4xx: open connections <= pool size, own result, one message at a time per connection, RSET after a failure',
+    'design_ref': 'DESIGN.md section 2 C19',
+    'note': 'tier B is real time (millisecond delays, 10 s watchdog); tier A clients follow the RelayPoolClient contract',
 }
 
 NOT_APPLICABLE = {}
